@@ -314,4 +314,74 @@ Proof.
   - intros _ E. injection E as <- <- <-. exists h, L. split; reflexivity.
 Qed.
 End Steps.
+
+(* ================================================================== the store of the padding header *)
+Definition put_safe (R : ring) (h L : Z) : Prop :=
+  forall s, In s (r_slots R) -> s_pos s < h + align L 8 -> owner_dead s /\ s_len s <= 0.
+
+Lemma put_facts R prods h L : Inv lo (qcfg R prods) -> unb_ok R (UPut h L) -> put_safe R h L ->
+  exists s1 rest, pad_facts R s1 rest L /\ put_hdr (r_slots R) h L PAD = set_hdr L PAD s1 :: rest.
+Proof.
+  intros HI (-> & Hlt & HL & Hpre) Hsafe. unfold put_safe in Hsafe.
+  pose proof (st_cap R prods HI) as Hc. pose proof (cap_ok_range _ Hc) as Hcr.
+  pose proof (st_ci R prods HI) as (Hci & Hci8). pose proof (st_tiled R prods HI) as T. pose proof (st_size R prods HI) as Hsz.
+  destruct (head_slot R prods HI Hlt) as (s1 & rest & Es & Ep1).
+  assert (Hs1 : In s1 (r_slots R)) by (rewrite Es; left; reflexivity).
+  pose proof (align8_bounds L) as HaL. pose proof (align8_pos L HL) as HaL8.
+  destruct (Hsafe s1 Hs1 ltac:(lia)) as (D1 & Neg1).
+  assert (Eput : put_hdr (r_slots R) (r_head R) L PAD = set_hdr L PAD s1 :: rest).
+  { rewrite Es. unfold put_hdr. cbn [upd_slot]. replace (s_pos s1 =? r_head R) with true by lia. reflexivity. }
+  exists s1, rest. split; [| exact Eput].
+  rewrite Es in T. inversion T as [| h0 t0 s0 sl0 Hp1 G1 T2]; subst h0 t0 s0 sl0.
+  pose proof G1 as (_ & _ & G1s & _ & G1str & _). rewrite Hp1 in G1str.
+  pose proof (tiled_le _ _ _ _ T2) as Hle2.
+  assert (Hnext : r_head R + s_span s1 = r_tail R \/ exists s, In s rest /\ s_pos s = r_head R + s_span s1).
+  { destruct rest as [| s2 rest2]; [left; inversion T2; lia |]. right. exists s2. split; [left; reflexivity |]. inversion T2; subst. lia. }
+  destruct Hpre as [Hn | (L8 & L8' & Lfit & Hsc & Hho)].
+  - (* the negative branch *)
+    pose proof (Hn s1 Hs1 Ep1 D1) as El.
+    destruct (slot_len_cases R prods HI s1 Hs1) as [P | [(N & Nsp) | (B & _)]]; [lia | | lia].
+    replace (- s_len s1) with L in Nsp by lia.
+    unfold pad_facts. rewrite <- Nsp.
+    split; [exact Es |]. split; [lia |]. split; [exact HL |]. split; [lia |]. split; [lia |]. split; [exact Hnext |].
+    split; [| split; [intros; lia | intros; lia]].
+    intros x Hx Hxp. pose proof (tiled_range _ _ _ _ T2) as Rg2. rewrite Forall_forall in Rg2. destruct (Rg2 x Hx). lia.
+  - (* the zero branch *)
+    rewrite (align8_id _ L8) in *.
+    assert (B1 : blank s1).
+    { apply (Hsc s1 Hs1); [unfold idx; lia | exact D1]. }
+    destruct B1 as (B1 & _).
+    destruct Hho as (s & Hs & Hr & Hcase).
+    destruct (slot_geo R prods HI s Hs) as (Sa & Sb & _).
+    assert (Hsq : s_pos s = r_head R + L).
+    { destruct Hcase as [Eq | Nd]; [unfold idx in Eq; lia |].
+      destruct (Z_lt_dec (s_pos s) (r_head R + L)) as [Lt | Ge]; [destruct (Hsafe s Hs Lt) as (Dd & _); contradiction | unfold idx in Hr; lia]. }
+    unfold pad_facts. rewrite !(align8_id _ L8).
+    split; [exact Es |]. split; [lia |]. split; [exact HL |]. split; [lia |]. split; [unfold idx in Hr; lia |].
+    split.
+    { right. exists s. split; [| exact Hsq]. rewrite Es in Hs. destruct Hs as [<- | Hs]; [lia | exact Hs]. }
+    split; [| split; [intros; lia | intros _; lia]].
+    intros x Hx Hxp. assert (Hxs : In x (r_slots R)) by (rewrite Es; right; exact Hx).
+    destruct (Hsafe x Hxs Hxp) as (Dx & _).
+    destruct (Hsc x Hxs ltac:(unfold idx; lia) Dx) as (Bx & _). exact Bx.
+Qed.
+
+(* the memory after the store is the memory of a configuration that satisfies the invariant again: the swept claims
+   are one padding slot, their owners (dead) are out of the game *)
+Theorem agent_put R prods h L : Inv lo (qcfg R prods) -> unb_ok R (UPut h L) -> put_safe R h L ->
+  exists swept suffix pad,
+    r_slots R = swept ++ suffix /\ swept <> [] /\ Forall (fun s => s_len s <= 0 /\ owner_dead s) swept /\
+    s_type pad = PAD /\ s_pos pad = r_head R /\ s_span pad = span_sum swept /\
+    Inv lo (qcfg (set_slots R (pad :: suffix)) (retire swept prods)) /\
+    render (set_slots R (pad :: suffix)) = render (set_slots R (put_hdr (r_slots R) h L PAD)).
+Proof.
+  intros HI Hu Hsafe. destruct (put_facts R prods h L HI Hu Hsafe) as (s1 & rest & PF & Eput).
+  destruct (after_pad lo (qcfg R prods) s1 rest L HI eq_refl (or_intror eq_refl) PF) as (swept & suffix & pad & Es & Hne & Hsw & Pt & Pp & Psp & HI' & Er).
+  cbn [qcfg g_ring g_cons g_prods] in *. destruct Hu as (-> & _).
+  exists swept, suffix, pad. split; [exact Es |]. split; [exact Hne |]. split.
+  { apply Forall_forall. intros s Hs. rewrite Forall_forall in Hsw. destruct (Hsw s Hs) as (A & B). split; [exact A |].
+    apply (Hsafe s); [rewrite Es; apply in_or_app; left; exact Hs | exact B]. }
+  split; [exact Pt |]. split; [exact Pp |]. split; [exact Psp |]. split; [exact HI' |].
+  rewrite Er, Eput. reflexivity.
+Qed.
 End Agent.
